@@ -178,20 +178,32 @@ def case_order(case, obs) -> None:
             a.m, b.m = 1.7 * a.m, 1.7 * b.m
         elif op != "inv" or hasattr(type(a.m), "inv"):
             a.m, b.m = getattr(a.m, op), getattr(b.m, op)
-    attrs = available_attrs(a.m)
+    # scalar multiples / negations are formed at some point of the access history too (they may carry over whatever
+    # factorisation is cached at that moment)
+    attrs = available_attrs(a.m) + ["smul", "neg"]
     v = rng.standard_normal(a.m.shape[0])
     oa, ob = list(rng.permutation(attrs)), list(rng.permutation(attrs))
     if rng.integers(0, 3) == 0:
-        # maximal contrast: one instance hands out its derived objects (T, inv, sqrt) only after every cached quantity is
-        # in place, the other before any of them
-        derived = [x for x in oa if x in ("T", "inv", "sqrt")]
+        # maximal contrast: one instance hands out its derived objects (T, inv, sqrt, multiples) only after every cached
+        # quantity is in place, the other before any of them
+        derived = [x for x in oa if x in ("T", "inv", "sqrt", "smul", "neg")]
         rest = [x for x in oa if x not in derived]
         oa, ob = rest + derived, derived[::-1] + rest[::-1]
     ra, rb = {}, {}
+    made = ({}, {})
+
+    def access(node, x, which):
+        if x == "__hash__":
+            return hash(node.m)
+        if x in ("smul", "neg"):
+            made[which][x] = 1.7 * node.m if x == "smul" else -node.m
+            return to_plain(made[which][x])
+        return to_plain(get_attr(node.m, x, v))
+
     for x in oa:
-        ra[x] = to_plain(get_attr(a.m, x, v)) if x != "__hash__" else hash(a.m)
+        ra[x] = access(a, x, 0)
     for x in ob:
-        rb[x] = to_plain(get_attr(b.m, x, v)) if x != "__hash__" else hash(b.m)
+        rb[x] = access(b, x, 1)
     obs.count("order_pairs")
     for x in attrs:
         obs.count("order_attr_compared")
@@ -204,6 +216,8 @@ def case_order(case, obs) -> None:
                           f"{type(a.m).__name__}.{x} differs between access orders {oa} and {ob}; expr={a.desc}")
         elif not plain_equal(ra[x], rb[x], 0):
             obs.count("order_bit_level_differences")
+        if x in ("smul", "neg"):
+            continue
         again = to_plain(get_attr(a.m, x, v))
         if not plain_equal(again, ra[x], 0):
             obs.violation(f"unstable-repeat:{x}:{type(a.m).__name__}", f"repeated access of {x} not bitwise stable; expr={a.desc}")
@@ -211,16 +225,20 @@ def case_order(case, obs) -> None:
     # must themselves be the same values, whatever was cached on the parent when they were constructed
     from mici import matrices as mm
 
-    for x in ("T", "inv", "sqrt"):
+    for x in ("T", "inv", "sqrt", "smul", "neg"):
         if x not in attrs:
             continue
-        sa, sb = getattr(a.m, x), getattr(b.m, x)
+        sa, sb = (made[0][x], made[1][x]) if x in ("smul", "neg") else (getattr(a.m, x), getattr(b.m, x))
         if not isinstance(sa, mm.Matrix):
             continue
         sub_attrs = [y for y in available_attrs(sa) if y in ("array", "T", "inv", "log_abs_det", "diagonal", "sqrt", "eigval")]
         for y in (list(rng.permutation(sub_attrs)) if sub_attrs else []):
             obs.count("order_derived_attr_compared")
             va, vb = to_plain(get_attr(sa, y, v)), to_plain(get_attr(sb, y, v))
+            if y == "eigval":
+                # no ordering of the eigenvalues is documented (a negative multiple of a matrix whose eigendecomposition was
+                # already cached lists them in descending order, a fresh one in ascending order): compared as multisets
+                va, vb = np.sort(va), np.sort(vb)
             if not plain_equal(va, vb, 1e-9):
                 obs.violation(f"order-dependent:{x}.{y}:{type(a.m).__name__}",
                               f"{type(a.m).__name__}.{x}.{y} differs between instances whose attributes were first accessed in orders "
